@@ -199,7 +199,7 @@ def gen(rng, tier):
           ['bad_name', 'bad_module', 'duplicate_other', 'duplicate_equal',
            'unknown_in_list', 'both_lists', 'non_list',
            'class_with_regmethod_bad_list', 'rejected_then_new',
-           'duplicate_after_stray_exit']),
+           'duplicate_after_stray_exit', 'plain_class_bad_list']),
                   'n': i,
                   'target': 'T%d' % rng.randint(0, i)})
     elif r < 0.62 and r >= 0.55:
@@ -468,6 +468,13 @@ def run(case):
         elif kind == 'duplicate_other':
           gin.external_configurable(fresh_fn(op['target']), name=op['target'],
                                     module=MOD)
+        elif kind == 'plain_class_bad_list':
+          # a class with neither __init__ nor __new__ has no parameters a list
+          # could name
+          gp = {'__name__': MOD}
+          exec('class Zq:\n  pass\n', gp)  # pylint: disable=exec-used
+          gin.external_configurable(gp['Zq'], name='Zq', module=MOD,
+                                    denylist=['bogus'])
         elif kind == 'duplicate_after_stray_exit':
           # leaving interactive mode while not in it (a defensive exit) does not
           # turn it on
